@@ -80,13 +80,14 @@ PROPS["C07"] = {
     "technique": "Verus: ghost window model (root matrix, origin, extent, transposed flag) as representation invariant on the extracted Shape/Surface/SurfaceMut/iterator code (unbounded); Kani for the ViewBounds contract of every impl and a bounded twin",
     "level_text": "Proved (Verus, all sizes and all chains by induction on the invariant): Shape::from/view keep `rep` (the shape denotes the sub-window the bounds select; empty on absent bounds); transpose flips the window; "
                   "offset of every in-window position is the root cell the model says, lies inside the buffer and is injective; nth/iteration is row-major with exactly h*w items; get/is_empty/view/view_owned/as_ref/iter "
-                  "(trait defaults, verified in place); fill/clear/set write only offsets of window cells (frame); SurfaceMutIter::nth's raw-pointer access is in bounds and never repeats an offset. "
+                  "(trait defaults, verified in place); fill/clear/set write only offsets of window cells (frame); view_mut/as_mut/iter_mut hand the same window on; SurfaceMutIter::nth's raw-pointer access is in bounds and never repeats an offset; "
+                  "SurfaceOwned::new_with builds a surface that satisfies the invariant (base case) and the real shape()/data()/data_mut() of SurfaceOwned, SurfaceView and SurfaceMutView discharge the trait contract, so the defaults apply to them. "
                   "The ViewBounds trait contract assumed there is proved for all 61 impls (Kani, complete). insert/map/fill_with/to_owned_surf and forwarding impls only through the bounded twin.",
     "level_note": "Assumed: the raw pointer dereference itself, &/&mut/Arc/Box forwarding impls, Clone/Default of items, hash; preconditions index+n+1 <= usize::MAX on nth and buffer length <= isize::MAX.",
     "assumptions": [
         "surfaces are built from SurfaceOwned/Shape::from and view/transpose (SurfaceView::new with an arbitrary Shape is outside the domain)",
         "slice length <= isize::MAX (Rust allocation invariant); Iterator::nth is called with index + n + 1 <= usize::MAX",
-        "SurfaceMut::{insert,fill_with,get_mut,iter_mut,view_mut}, Surface::{map,to_owned_surf,hash}, SurfaceOwned::new_with: only the bounded Kani twin (3x4 surface) exercises insert/iter/get through nested and transposed views",
+        "SurfaceMut::{insert,fill_with,get_mut}, Surface::{map,to_owned_surf,hash}, `impl SurfaceMut for SurfaceMutView`, SurfaceOwnedView and the &/&mut/Arc/Box forwarding impls: not under Verus contract; the bounded Kani twin (3x4 surface, incl. depth-2 chains in the thorough tier) exercises insert/iter/get through nested and transposed views",
     ],
 }
 
@@ -157,10 +158,13 @@ PROPS["C13"] = {
 PROPS["C14"] = {
     "kani": ["c14_base64", "c14_enc_table"],
     "verus": ["base64enc", "base64dec"],
-    "technique": "Verus contracts on the streaming encoder (carry-buffer algebra, unbounded, chunk independence as lemmas); Kani/CBMC complete harnesses for both tables and the 4-char quantum round trip; bounded Kani twin for the decoder loop",
+    "technique": "Verus contracts on the streaming encoder (carry-buffer algebra, unbounded, chunk independence as lemmas); Kani/CBMC complete harnesses for both tables and the 4-char quantum round trip; Verus contracts on the streaming decoder against a reader specified by the io::Read contract",
     "level_text": "Proved (Verus, any data, any partition into writes): Base64Encoder::write appends full(carry+buf) and keeps rem(carry+buf) as carry, finish appends the padded tail; with lemma_full_concat/lemma_two_writes the output "
                   "of any write sequence is b64(concatenation) per RFC 4648. Proved (Kani, complete): BASE64_ENCODE is the RFC alphabet, BASE64_DECODE its inverse, decode_u8x4(enc3(a,b,c)) == [a,b,c] for all 2^24 groups, "
-                  "padded quanta give 1/2 bytes, decode_* total on arbitrary bytes. Decoder buffering (buffer_fill/read) under short reads: bounded twin only (one quantum, reader step 1..=4).",
+                  "padded quanta give 1/2 bytes, decode_* total on arbitrary bytes. "
+                  "Proved (Verus, unit base64dec; any reader obeying the io::Read contract - any short-read schedule, any error point - and any destination size): Base64Decoder::read delivers exactly the next n bytes of "
+                  "pending + dec_text(text) in order, a short count happens only at end of stream after whole quanta were consumed, and an error is either the reader's or a text length that is not a multiple of four "
+                  "(tolerated as well: non-base64 characters); no index or arithmetic failure on arbitrary bytes.",
     "level_note": "Assumed: <Vec<u8> as Write>::write_all appends; sink W := Vec<u8>, source R := AnyReader (the io::Read contract as a specification); table lookups specified and discharged by Kani; dec4 == inverse of enc3 is the Kani quantum harness.",
     "assumptions": [
         "encoder sink: Vec<u8> (N6); other io::Write sinks may fail, which the contract does not model",
@@ -175,13 +179,13 @@ PROPS["C16"] = {
     "verus": ["ioqueue"],
     "technique": "Verus: representation invariant + abstract byte-sequence view on the extracted IOQueue methods (unbounded)",
     "level_text": "Deductive proof (Verus/Z3) of len() == |bytes()|, write appends, consume/consume_with/read drop exactly the first k bytes, "
-                  "flush keeps bytes, clear_but_last keeps exactly the first chunk, for all queue states and all operation histories (by the invariant). "
+                  "flush keeps bytes, clear_but_last keeps a prefix of the chunk list that still contains the front chunk (nothing of a chunk in flight is dropped) with len() recomputed, for all queue states and all operation histories (by the invariant). "
                   "The tty write loop in unix.rs is assumed, not proved.",
     "level_note": "Trusts Verus/Z3, the listed std specifications and the extractor's logged normalisations; unix.rs poll loop, OS and frame convention assumed.",
     "assumptions": [
         "tty side (UnixTerminal::poll select loop, rustix write, tee file, guard_io) is outside the contracts: it is assumed to call "
         "consume_with with a closure that returns k <= slice.len() (the write(2) contract) and to append only through IOQueue::write",
-        "`frame = flush-delimited chunk` is a convention of run_render; clear_but_last is proved to keep exactly the first chunk "
+        "`frame = flush-delimited chunk` is a convention of run_render; clear_but_last is proved to keep the first chunk "
         "(the one whose transmission may have started) and the read offset",
         "IOQueue::write precondition: length + buf.len() <= usize::MAX (physical memory bound)",
         "Verus gives no counterexample and the VecDeque<Vec<u8>> queue is intractable for CBMC (2 probes > 6 min): failed obligations are reported with no-failing-input-found",
